@@ -95,6 +95,9 @@ package json
 //@        p.state[len(p.state)-1] == ite(old(p.state[len(p.state)-2]) == ObjectValueState, ObjectKeyState, old(p.state[len(p.state)-2])) &&
 //@        forall(i, 0, len(p.state)-1, p.state[i] == old(p.state[i]))
 //@   ensures[F,C10] @same-depth: result0 == StringGrammar || result0 == NumberGrammar || result0 == LiteralGrammar || result0 == ErrorGrammar ==> len(p.state) == old(len(p.state))
+// a string unit (key or value) is exactly the string literal: it starts and ends with a quote (white space before ':' is
+// not part of a key)
+//@   ensures[F,C10] @string-closed: result0 == StringGrammar ==> result1[0] == '"' && result1[len(result1)-1] == '"'
 //@   ensures[F,C10] @key-value: old(p.state[len(p.state)-1]) == ObjectKeyState && result0 != ErrorGrammar && result0 != EndObjectGrammar ==>
 //@        result0 == StringGrammar && result1[0] == '"' && p.state[len(p.state)-1] == ObjectValueState
 //@   ensures[F,C10] @value-done: old(p.state[len(p.state)-1]) == ObjectValueState && (result0 == StringGrammar || result0 == NumberGrammar || result0 == LiteralGrammar) ==>
